@@ -1,16 +1,21 @@
 # Schedule harness (C03): one socket-thread operation racing one clock tick on the REAL objects.
 # The clock tick (real CLCKGen.send_clck_ind -> Application.clck_handler -> Transceiver.clck_tick ->
 # BurstForwarder.forward_msg -> FakeTRX.handle_data_msg) runs in a real second thread; a gate stops it at
-# the k-th of its "atomic action boundaries"
-#     pre-tick(j)      before Transceiver.clck_tick of transceiver j (before `running` is read)
-#     pre-lock(j)      before the queue lock is taken            post-lock(j)  right after it is released
-#     pre-forward(j)   before each BurstForwarder.forward_msg    pre-handle(k) before each FakeTRX.handle_data_msg
+# the k-th of its "atomic action boundaries" -- each one is a boundary between two atomic actions of the
+# clock thread in the interleaving model (lean/OsmoVerif/Model/WorldSched.lean: clockStep, boundaries):
+#     pre-tick(j)      before Transceiver.clck_tick of transceiver j (before `running` is read)      pc = next fn (j :: js)
+#     pre-lock(j)      before the queue lock is taken                                               pc = lock fn j js
+#     post-lock(j)     right after it is released                                                   pc = loop fn j emit drop js
+#     pre-forward(j)   before each BurstForwarder.forward_msg                                       pc = loop fn j (m :: emit) drop js
+#     pre-handle(k)    before each FakeTRX.handle_data_msg (the recipient's `running`, frequency
+#                      and header version have been read, the message has been translated)         pc = hdl fn j msg .. k rx ..
 # then the socket-thread operation is executed to completion in the main thread (real handle_rx /
 # recv_data_msg), then the tick is allowed to finish.  Only the schedule is forced; no code is changed.
 # Line protocol:  sched.run <seed> <extra|-> | <setup ops> ; R <k> <op...>
 #   setup ops as in world_harness (C / D / T / J);  R k C i port hex  |  R k D i hex
-# Answer: observations per op (the race op also lists  fwd:<src>:<fn>:<tickfn>  and  points:<n>  = number of
-# boundaries the tick went through) | ports | state, as world_harness.
+# Answer: observations per op (every op lists  fwd:<src>:<fn>:<tickfn>  for each burst handed to forward_msg; the race
+# op also  at:<boundary the tick was parked at | after>  and  points:<n>  = number of boundaries the tick went through)
+# | ports | state, as world_harness.  The Lean driver answers the same lines (verb sched.run, Driver/WorldSched.lean).
 import os, sys, threading
 os.environ["WORLD_TRACE"] = "1"
 sys.path.insert(0, os.path.dirname(os.path.abspath(__file__)))
@@ -30,6 +35,7 @@ class Gate:
         self.reached = threading.Semaphore(0)
         self.go = threading.Semaphore(0)
         self.released = False
+        self.at = "after"
 
     def point(self, name):
         if not self.active or threading.get_ident() != self.clock_ident:
@@ -37,6 +43,7 @@ class Gate:
         k = self.count
         self.count += 1
         if not self.released and self.stop_at is not None and k == self.stop_at:
+            self.at = name
             self.reached.release()
             self.go.acquire()
 
@@ -60,11 +67,14 @@ class PausingLock:
         GATE.point("post-lock")
         return False
 
+    # the same boundaries when the lock is taken / released by explicit calls instead of `with`
     def acquire(self, *a, **k):
+        GATE.point("pre-lock")
         return self.real.acquire(*a, **k)
 
     def release(self):
-        return self.real.release()
+        self.real.release()
+        GATE.point("post-lock")
 
 
 _orig_tick = Transceiver.clck_tick
@@ -116,7 +126,7 @@ def race(app, k, t):
     excs = []
     if not app.clck_gen.running:
         do_op(app, t)
-        return excs, 0
+        return excs, 0, "after"
     GATE.__init__()
     GATE.stop_at = k
     TICKFN[0] = app.clck_gen.clck_src
@@ -146,7 +156,7 @@ def race(app, k, t):
     th.join(30)
     if th.is_alive():
         excs.append("clock:DEADLOCK")
-    return excs, GATE.count
+    return excs, GATE.count, GATE.at
 
 
 def run_line(line):
@@ -177,8 +187,8 @@ def run_line(line):
         exc = None
         try:
             if t[0] == "R":
-                excs, n = race(app, int(t[1]), t[2:])
-                extra_items = ["points:%d" % n] + ["EXC:" + e for e in excs]
+                excs, n, at = race(app, int(t[1]), t[2:])
+                extra_items = ["at:" + at, "points:%d" % n] + ["EXC:" + e for e in excs]
             else:
                 do_op(app, t)
         except Exception as e:
